@@ -78,7 +78,7 @@ class SPIMaster(LiteXModule):
         clk_rise    = Signal()
         clk_fall    = Signal()
         self.comb += clk_rise.eq(clk_divider == (self.clk_divider[1:] - 1))
-        self.comb += clk_fall.eq(clk_divider == (self.clk_divider     - 1))
+        self.comb += clk_fall.eq(clk_divider >= (self.clk_divider     - 1))
         self.sync += [
             clk_divider.eq(clk_divider + 1),
             If(clk_rise,
